@@ -251,6 +251,7 @@ POOL_R = ["V", "I", "J", "Ljava/lang/String;", "[B"]
 
 def random_model_record(dex, rnd, max_classes):
     nc = rnd.randrange(0, max_classes + 1)
+    codeless = rnd.random() < 0.15           # a file of interfaces / native classes only has no code_item section at all
     cnames = ["Lp%d/C%d;" % (rnd.randrange(3), i) for i in range(nc)]
     if nc >= 2 and rnd.random() < 0.4:      # a class name that is a prefix of another one (lookup keys built by concatenation must not confuse them)
         cnames = ["La;", "Lab;", "Labc;", "Lp0/C9;"][:nc]
@@ -288,7 +289,7 @@ def random_model_record(dex, rnd, max_classes):
                 continue
             seen.add((n, p))
             direct = n == "<init>" or rnd.random() < 0.4
-            has = rnd.random() < 0.7
+            has = rnd.random() < 0.7 and not codeless
             fl = (rnd.choice([0xA, 0x10001 if n == "<init>" else 2]) if direct else 1)
             if not has:
                 fl = 0x10A if direct else 0x401
@@ -310,6 +311,15 @@ def random_model_record(dex, rnd, max_classes):
     pdesc = {"(" + "".join(p[1]) + ")" + p[0]: pis[p] for p in protos}
     rec = dict(fields=[[ci[c], ni[n], tis[t], st, fl] for (c, n, t, st, fl) in F],
                methods=[[ci[c], ni[n], pis[p], dr, has, fl] for (c, n, p, dr, has, fl) in M])
+    try:
+        _observe_model(dex, d, rec, rnd, cnames, ci, ni, tis, pis, pdesc, F, M, protos)
+    except Exception as e:                   # a parser / accessor that raises on a well-formed file has not reported what the file declares
+        rec["rep_fields"], rec["rep_methods"], rec["q"] = [[-9, -9, -9, -9]], [[-9, -9, -9, -9, False]], []
+        rec["err"] = "%s: %s" % (type(e).__name__, str(e)[:120])
+    return rec
+
+
+def _observe_model(dex, d, rec, rnd, cnames, ci, ni, tis, pis, pdesc, F, M, protos):
     rec["rep_fields"] = [[ci.get(f.get_class_name(), -1), ni.get(f.get_name(), -1), tis.get(f.get_descriptor(), -1), f.get_access_flags()]
                          for f in d.get_encoded_fields()]
     rec["rep_methods"] = [[ci.get(m.get_class_name(), -1), ni.get(m.get_name(), -1), pdesc.get(m.get_descriptor().replace(" ", ""), -1),
@@ -338,4 +348,3 @@ def random_model_record(dex, rnd, max_classes):
         got = d.get_encoded_field_descriptor(c, n, t)
         q.append(dict(k="fdesc", a=[ci[c], ni[n], tis[t]], r=fk([got] if got is not None else [])))
     rec["q"] = q
-    return rec
